@@ -5,7 +5,7 @@ CHECK = dict(
          "to programs of the spending account, each spending account debited exactly the requested amount, BTM fee = inputs - outputs "
          "= what the request left, other assets balanced, fundable requests built and unfundable ones refused, fully signed, accepted "
          "by validation.ValidateTx. TLC proves on an abstract template space that the post-condition implies conservation. Seeded "
-         "random cases (3 accounts incl. 2-of-3 multisig with keys in a real pseudo-HSM, 3 assets, random UTXO sets in the wallet DB, "
+         "random cases (6 accounts incl. 2-of-3, 1-of-2, 2-of-2, 3-of-3 multisig with keys in a real pseudo-HSM and every ordered quorum of co-signers as part of the case, 3 assets, random UTXO sets in the wallet DB, "
          "random action lists) run through txbuilder.Build/Sign/ValidateTx are recorded with limb-encoded amounts and judged rule by "
          "rule by TLC (TraceBuilder).",
     design_ref="DESIGN.md §6 C27",
